@@ -46,6 +46,7 @@ void h_install_rwlock_listener (void);     /* cross-check at nsync's own acquisi
    futex sleeps instead would be wrong: a queued thread may be woken before it ever reaches the futex. */
 void h_call_begin (void);
 int  h_call_has_waited (int fiber);
+int h_waiter_flagged (int fiber);
 unsigned h_call_dequeues (int fiber);
 
 /* results of threads, for outcome strings */
